@@ -79,10 +79,44 @@ def check_euclid(world: World, f):
     info = {}
 
     def hook(it, st, fr):
-        names = ("lm", "hm", "low", "high")
-        missing = [x for x in names if x not in fr.env]
-        if missing:
-            raise AnalysisError(f"{it.where(st)}: Euclid state variables {missing} not found")
+        # roles (lm, hm, low, high) are found from the loop itself, not from the variable names:
+        #   low  = the variable the loop test compares with 1;   high = the one that receives the old low;
+        #   hm   = the one that receives the old value of a third variable, which is lm
+        from .interp import _assigned_names
+        carried = [nm for nm in sorted(_assigned_names(st.body)) if nm in fr.env]
+        test = ast.unparse(st.test).replace(" ", "")
+        lowname = None
+        for nm in carried:
+            if test in (f"{nm}>1", f"1<{nm}", f"{nm}>=2", f"2<={nm}"):
+                lowname = nm
+        if len(carried) != 4 or lowname is None:
+            raise AnalysisError(f"{it.where(st)}: Euclid loop not recognised (loop-carried variables {carried}, test `{test}`)")
+        saved = dict(fr.env)
+        nev = len(it.events)
+        for nm in carried:
+            fr.env[nm] = ZSym(Poly.var("V_" + nm))
+        try:
+            it.exec_block(st.body, fr)
+        except (_Break, _Continue):
+            raise AnalysisError("break/continue in the Euclid loop")
+        after = {nm: fr.env.get(nm) for nm in carried}
+        fr.env.clear()
+        fr.env.update(saved)
+        del it.events[nev:]
+
+        def receives(old):
+            return [nm for nm in carried if isinstance(after[nm], ZSym) and (after[nm].p - Poly.var("V_" + old)).is_zero()]
+        highs = [nm for nm in receives(lowname) if nm != lowname]
+        role = None
+        if len(highs) == 1:
+            rest = [nm for nm in carried if nm not in (lowname, highs[0])]
+            for lm_, hm_ in ((rest[0], rest[1]), (rest[1], rest[0])):
+                if hm_ in receives(lm_):
+                    role = (lm_, hm_, lowname, highs[0])
+        if role is None:
+            raise AnalysisError(f"{it.where(st)}: Euclid loop not recognised (no rotation low→high, lm→hm among {carried})")
+        names = role
+        info["test_role"] = test.replace(lowname, "low")
         A = fr.env.get("a")
         if not isinstance(A, ZSym):
             raise AnalysisError(f"{it.where(st)}: argument a lost")
@@ -109,20 +143,20 @@ def check_euclid(world: World, f):
         info["preserved"] = inv_holds(s1)
         # termination: new low is `high − low·(high // low)` = high mod low < low
         divs = [ev for ev in it.events[nz0:] if ev["kind"] == "zdiv"]
-        new_low = fr.env["low"]
+        new_low = fr.env[names[2]]
         dec = False
         for ev in divs:
             if ev["num"] == high.p and ev["den"] == low.p and isinstance(new_low, ZSym) and \
                     (new_low.p - (high.p - low.p * ev["quotient"])).is_zero():
                 dec = True
         info["decreases"] = dec
-        info["rotates"] = isinstance(fr.env["high"], ZSym) and (fr.env["high"].p - low.p).is_zero() and \
-            isinstance(fr.env["hm"], ZSym) and (fr.env["hm"].p - lm.p).is_zero()
+        info["rotates"] = isinstance(fr.env[names[3]], ZSym) and (fr.env[names[3]].p - low.p).is_zero() and \
+            isinstance(fr.env[names[1]], ZSym) and (fr.env[names[1]].p - lm.p).is_zero()
         # loop condition is `low > 1`
-        info["cond"] = ast.unparse(st.test).replace(" ", "")
+        info["cond"] = info["test_role"]
         # exit state: arbitrary invariant state with low = 1
-        fr.env["lm"], fr.env["hm"] = ZSym(Poly.var("LMx")), ZSym(Poly.var("HMx"))
-        fr.env["low"], fr.env["high"] = ZSym(Poly.var("LOWx")), ZSym(Poly.var("HIGHx"))
+        fr.env[names[0]], fr.env[names[1]] = ZSym(Poly.var("LMx")), ZSym(Poly.var("HMx"))
+        fr.env[names[2]], fr.env[names[3]] = ZSym(Poly.var("LOWx")), ZSym(Poly.var("HIGHx"))
         return None
 
     def run(it):
@@ -136,7 +170,7 @@ def check_euclid(world: World, f):
     res.append(("invariant lm·a ≡ low, hm·a ≡ high (mod n) holds initially", info.get("init") is True, ""))
     res.append(("invariant preserved by the loop body for every quotient", info.get("preserved") is True, ""))
     res.append(("loop runs while low > 1; low is replaced by high mod low (< low) and (hm, high) by (lm, low): terminates",
-                info.get("decreases") is True and info.get("rotates") is True and info.get("cond") in ("low>1", "1<low"),
+                info.get("decreases") is True and info.get("rotates") is True and info.get("cond") in ("low>1", "1<low", "low>=2", "2<=low"),
                 f"condition `{info.get('cond')}`"))
     okret = bool(loopp)
     for p in loopp:
@@ -149,7 +183,8 @@ def check_euclid(world: World, f):
 def _zero_test_ok(p):
     """the early return is taken exactly when (a mod n) == 0"""
     for atom, truth, _ in p.facts:
-        if isinstance(atom, Term) and atom.op == "zcmp" and atom.args[0] == "==" and atom.args[2] == "0" and truth:
+        if isinstance(atom, Term) and atom.op == "zcmp" and atom.args[2] == "0" and (
+                (atom.args[0] == "==" and truth) or (atom.args[0] == "!=" and not truth)):
             return True
     return False
 
@@ -234,48 +269,74 @@ def check_pow(world: World, m, degree):
     winfo = {}
 
     def whook(it, st, fr):
-        # loop invariant  o · t^other = self^N  in exponents: eo + et·other = N
-        o, t, oth = fr.env.get("o"), fr.env.get("t"), fr.env.get("other")
-        if not (isinstance(o, PowSym) and isinstance(t, PowSym)):
-            raise AnalysisError(f"{it.where(st)}: accumulator/base of the power loop not recognised")
-        winfo["init"] = (o.e + t.e * exponent_poly(oth) - Poly.var("other")).is_zero()
-        winfo["cond"] = ast.unparse(st.test).replace(" ", "")
-        ok_all = True
-        for b in (0, 1):
-            EO, ET = Poly.var("EO"), Poly.var("ET")
-            fr2 = fr
-            saved = dict(fr.env)
-            fr.env["o"], fr.env["t"] = PowSym(EO, owner), PowSym(ET, owner)
-            cur = var("cur", "int")
-            fr.env["other"] = cur
-            it.facts[Term("eq", (0, Term("and", (cur, 1), "int")), "bool")] = (b == 0)
-            it.facts[Term("eq", (0, Term("mod", (cur, 2), "int")), "bool")] = (b == 0)
-            it.facts[Term("eq", (1, Term("and", (cur, 1), "int")), "bool")] = (b == 1)
-            it.facts[Term("eq", (1, Term("mod", (cur, 2), "int")), "bool")] = (b == 1)
-            try:
-                it.exec_block(st.body, fr)
-            except (_Break, _Continue):
-                raise AnalysisError("break/continue in the power loop")
-            o2, t2, oth2 = fr.env["o"], fr.env["t"], fr.env["other"]
-            for k in list(it.facts):
-                if isinstance(k, Term) and any(x is cur or (isinstance(x, Term) and cur in x.args) for x in k.args):
-                    del it.facts[k]
-            if not (isinstance(o2, PowSym) and isinstance(t2, PowSym)):
-                ok_all = False
-            else:
+        # loop invariant  acc · base^e = self^N  in exponents: e_acc + e_base·e = N   (roles found from the loop body, not by name)
+        from .interp import _assigned_names
+        names = [nm for nm in sorted(_assigned_names(st.body)) if nm in fr.env]
+        pows = [nm for nm in names if isinstance(fr.env[nm], PowSym)]
+        ints = [nm for nm in names if nm not in pows]
+        if len(pows) != 2 or len(ints) != 1:
+            raise AnalysisError(f"{it.where(st)}: accumulator/base of the power loop not recognised "
+                                f"(loop-carried: {names})")
+        ename = ints[0]
+        oth = fr.env[ename]
+        cond = ast.unparse(st.test).replace(" ", "").replace(ename, "other")
+        winfo["cond"] = cond
+        saved = dict(fr.env)
+        sfacts = dict(it.facts)
+        verdict = None
+        for O, T in ((pows[0], pows[1]), (pows[1], pows[0])):
+            o, t = saved[O], saved[T]
+            init = (o.e + t.e * exponent_poly(oth) - Poly.var("other")).is_zero()
+            ok_all = True
+            detail = None
+            for b in (0, 1):
+                EO, ET = Poly.var("EO"), Poly.var("ET")
+                fr.env.clear()
+                fr.env.update(saved)
+                it.facts.clear()
+                it.facts.update(sfacts)
+                fr.env[O], fr.env[T] = PowSym(EO, owner), PowSym(ET, owner)
+                cur = var("cur", "int")
+                fr.env[ename] = cur
+                it.facts[Term("eq", (0, Term("and", (cur, 1), "int")), "bool")] = (b == 0)
+                it.facts[Term("eq", (0, Term("mod", (cur, 2), "int")), "bool")] = (b == 0)
+                it.facts[Term("eq", (1, Term("and", (cur, 1), "int")), "bool")] = (b == 1)
+                it.facts[Term("eq", (1, Term("mod", (cur, 2), "int")), "bool")] = (b == 1)
+                try:
+                    it.exec_block(st.body, fr)
+                except (_Break, _Continue):
+                    raise AnalysisError("break/continue in the power loop")
+                o2, t2, oth2 = fr.env[O], fr.env[T], fr.env[ename]
+                if not (isinstance(o2, PowSym) and isinstance(t2, PowSym)):
+                    ok_all = False
+                    continue
                 h = Poly.var("h")
                 halves = isinstance(oth2, Term) and ((oth2.op == "rshift" and oth2.args == (cur, 1)) or (oth2.op == "floordiv" and oth2.args == (cur, 2)))
                 inv_after = o2.e + t2.e * h
                 inv_before = EO + ET * (Poly.const(2) * h + Poly.const(b))
                 if not (halves and (inv_after - inv_before).is_zero()):
                     ok_all = False
-                    winfo.setdefault("detail", f"bit {b}: o·t^other after the body has exponent {inv_after!r}, before {inv_before!r}; other halves: {halves}")
-            fr.env.clear()
-            fr.env.update(saved)
-        winfo["preserved"] = ok_all
-        # exit: other == 0, result o with eo = N
-        fr.env["o"] = PowSym(Poly.var("other"), owner)
-        fr.env["other"] = 0
+                    detail = (f"bit {b}: acc·base^e after the body has exponent {inv_after!r}, before {inv_before!r}; "
+                              f"exponent halves: {halves}")
+            if verdict is None or (init and ok_all):
+                verdict = (O, T, init, ok_all, detail)
+            if init and ok_all:
+                break
+        fr.env.clear()
+        fr.env.update(saved)
+        it.facts.clear()
+        it.facts.update(sfacts)
+        O, T, init, ok_all, detail = verdict
+        winfo["init"] = winfo.get("init", True) and init          # every path that reaches the loop must establish it
+        winfo["preserved"] = winfo.get("preserved", True) and ok_all
+        if not init:
+            winfo.setdefault("detail", f"on path {' '.join(w for _c, w in it.oracle.trace) or '(straight)'} the loop starts with "
+                                       f"exponent {show(oth)[:80]}: acc·base^e ≠ self^other")
+        if detail:
+            winfo.setdefault("detail", detail)
+        # exit: e == 0, result acc with exponent N
+        fr.env[O] = PowSym(Poly.var("other"), owner)
+        fr.env[ename] = 0
         return None
 
     def run(it):
